@@ -216,3 +216,18 @@ CLAIMED["C18"] = dict(
   note=("Trusted: as C01; Assets.lean as the model of fmtutil/__assets.py (its Datetime renderer is strftime of the directive, validated by correspondence). Partial: parse agreement, "
         "arithmetic and ordering for all inputs are validated, not proved. Defect repaired in /repo: asset Datetime - Datetime raised FormatterValueError."),
   design="§6 C18")
+
+CLAIMED["C19"] = dict(
+  technique="Lean 4 proof: unescape∘re.escape = id and strict UTF-8 decode∘encode = id by induction for every string; literal-regex theorem for every text; kernel evaluation of the regex parser on escaped texts; entry-point facts probed by the translator",
+  text=("Theorems: C19_unescape_escape - for EVERY string t, unescape(re.escape(t)) = t (the escape set is regenerated by probing re.escape and contains the backslash); "
+        "C19_literal_only - for EVERY t and s, the literal regex of t matches s from first to last character iff s = t ('matches t and nothing else'); "
+        "C19_escape_parses_ascii / _pairs - the text re.escape produces is read by the regex parser as that literal regex, for every one-character string over ASCII 0..127 "
+        "and every two-character string over a 29-character metacharacter alphabet (kernel evaluation); C19_utf8_roundtrip - for EVERY string s, strict UTF-8 decoding of "
+        "its encoding gives s (all four sequence lengths, surrogate gap, by omega on the bit arithmetic), hence C19_bytes_equal_text - bytes2str gives the same text for the "
+        "bytes as for the str and TypeError for anything else; C19_entry_points - all ten parse entry points (five formatters, constants, groups, three version classes) "
+        "decode bytes and raise TypeError on other types: probed on /repo by the translator on every run; C19_source_shape - the unescape pattern/flags and the use of "
+        "re.escape read from the source; C19_escape_group_instances - placeholders kept, rest escaped. Longer texts through the regex parser, placeholder embedding, real group "
+        "parses with escaped file-name text, invalid UTF-8 and the wrong-type corpus are decided by the sweep (CPython's own regex parser as judge) and the correspondence."),
+  note=("Trusted: as C01; CPython's re.escape (probed per character) and str(bytes,'utf-8','strict') (model Esc.decode validated on random and malformed byte strings). "
+        "Partial: 'the parser reads re.escape(t) as the literal regex' is proved for strings of length <= 2 over the alphabet, validated beyond."),
+  design="§6 C19")
